@@ -21,3 +21,5 @@ for p in "$@"; do
 done
 git checkout -- .
 git status --short | head -2
+# evidence files must describe runs against the unchanged tree only
+git -C /verif checkout -- evidence
